@@ -81,3 +81,13 @@ reg("C18", native("mon-rt", "rt_sync"),
     "2x10^5 (quick) mutated or random inputs are fed to SyncIncoming::decode, SyncResponder::receive+poll+push on a real graph, SyncRequester::receive in three states and receive_push: no panic in either profile, "
     "returned command slices must lie inside the input buffer, and commands are accepted only under the requester's own session id at the expected response index.",
     "Inputs are mutations of messages recorded from generated sessions plus random bytes; no coverage guidance in the quick tier.", design_ref="DESIGN.md 4 (C18)")
+
+reg("C15", native("mon-crash", "rt_crash"),
+    "fault enumeration: recorded pwrite/fdatasync/fsync/fallocate log (hook H1) -> every crash point x persistence subsets of volatile writes (+ torn writes) -> reopen with the real storage and compare with recorded commit states",
+    "A real multi-commit workload on the libc FileManager is recorded through hook H1. For every crash point (after each I/O event) every persistence choice of the writes issued since the last barrier is materialised "
+    "(none/all/power set when small/each single dropped or kept/prefixes/suffixes/seeded random subsets, plus torn variants) and reopened with the real LinearStorageProvider: an Ok open must equal the last completed or the "
+    "in-progress commit with every head, command and fact readable, continuing (append+commit+reopen) must give recovered+new, and an error is allowed only before the first commit completed.",
+    "Disk model: writes become durable at the next fdatasync/fsync at the latest, any subset (possibly torn) may persist before; directory-entry durability, media corruption of durable data and multi-file atomicity are not modelled. "
+    "Crash points are enumerated exhaustively per recorded workload; persistence subsets exhaustively up to 7 (quick) / 11 (thorough) volatile writes and sampled beyond.",
+    level="fault_enumeration", design_ref="DESIGN.md 4 (C15)")
+HOOKS["source_commits"].extend(["0f6c217"])
